@@ -39,6 +39,8 @@ type c05cb struct {
 	early   bool // ran while IsCompleted() was false
 	who     string
 	started bool // registration call was made
+	reenter bool // when it runs it registers a further callback on the same future
+	nested  *c05cb
 }
 
 var c05KindNames = [...]string{"OnComplete", "OnSuccess", "OnFailure", "Foreach"}
@@ -69,6 +71,18 @@ func execC05(r *sim.Run) {
 			if !p.IsCompleted() {
 				cb.early = true
 			}
+			if cb.reenter && cb.nested != nil && !cb.nested.started {
+				// a callback that registers another callback while callbacks are being dispatched
+				n := cb.nested
+				n.started = true
+				fut.OnComplete(func(t fp.Try[int]) {
+					n.count++
+					n.got = tryStr(t)
+					if !p.IsCompleted() {
+						n.early = true
+					}
+				}, ex.ctx(n.exec)...)
+			}
 		}
 		ctx := ex.ctx(cb.exec)
 		switch cb.kind {
@@ -85,6 +99,12 @@ func execC05(r *sim.Run) {
 	newCb := func(who string) *c05cb {
 		cb := &c05cb{id: len(cbs), kind: r.Choose(4, "cbkind"), exec: r.Choose(exKinds, "cbexec"), who: who}
 		cbs = append(cbs, cb)
+		if r.ChooseWith(8, "reenter", func(g *sim.Rng) int { return g.Intn(8) }) == 7 {
+			cb.reenter = true
+			cb.nested = &c05cb{id: len(cbs), kind: 0, exec: r.Choose(exKinds, "nestedexec"), who: who + "/nested"}
+			cbs = append(cbs, cb.nested)
+			r.Fault("callback-registers-callback")
+		}
 		return cb
 	}
 
